@@ -118,6 +118,14 @@ def classify (req : List Nat) : Kind :=
   else if sSTART.isPrefixOf u then .start
   else .invalid
 
+/-- the label contains a line break (refused by `SetExperimentStateLabel` since fix 00d4efc) -/
+def multiLine (l : List Nat) : Bool := l.any fun b => b == 10 || b == 13
+
+/-- `SetExperimentStateLabel` refuses: no active run, or a label that is not a single line -/
+def labelRefused (active : Bool) : Option (List Nat) → Bool
+  | none => false
+  | some l => !active || multiLine l
+
 /-! ### makeDirectory -/
 
 /-- first `i` in `[i, i+fuel)` such that run directory `(pid, i)` does not exist -/
@@ -222,7 +230,7 @@ def step (s : St) : Op → St × Bool
     | .pause =>
       ({ s with chans := s.chans.map (·.setPause true), ws := { s.ws with paused := true } }, false)
     | .unpause lbl =>
-      if lbl.isSome && !s.ws.active then (s, true)      -- SetExperimentStateLabel refuses
+      if labelRefused s.ws.active lbl then (s, true)    -- SetExperimentStateLabel refuses
       else ({ s with chans := s.chans.map (·.setPause false), ws := { s.ws with paused := false } }, false)
     | .unpauseBad => (s, true)
     | .stop => ({ s with chans := s.chans.map (·.removeAll), ws := s.ws.stop }, false)
